@@ -272,6 +272,16 @@ class NPProxy:
             return abs(a - b) <= atol + rtol * abs(b)
         return self._r.isclose(a, b, rtol=rtol, atol=atol, **kw)
 
+    def allclose(self, a, b, rtol=1e-05, atol=1e-08, **kw):
+        if has_sym(a) or has_sym(b):
+            fa = self._r.asarray(a, dtype=object).ravel()
+            fb = self._r.asarray(b, dtype=object).ravel()
+            if len(fa) != len(fb):
+                return bool(self._r.allclose(a, b, rtol=rtol, atol=atol, **kw))
+            return all(bool(self.isclose(x, y, rtol=rtol, atol=atol)) if (isinstance(x, SymReal) or isinstance(y, SymReal))
+                       else bool(self._r.isclose(x, y, rtol=rtol, atol=atol)) for x, y in zip(fa, fb))
+        return self._r.allclose(a, b, rtol=rtol, atol=atol, **kw)
+
     def dot(self, a, b, **kw):
         return self._r.dot(a, b, **kw)
 
